@@ -26,10 +26,21 @@ Judged forms
              cannot parse) is counted as ``text_forms_untranslatable`` = inconclusive for
              that case, never a violation.
 
+  chains     2-4 chained ``offset() / limit() / slice()`` calls on Select, CompoundSelect and ORM
+             ``Query`` (plus ``Query[a:b]``, ``[:b]``, ``[a:]``), ints, bound parameters and
+             expressions; reference = the same operations applied as Python slices to the list
+             of fully ordered rows.  What a slice reaching beyond an existing LIMIT does is left
+             open by the documentation, so only slices inside the current window are generated.
+  rownum     legacy Oracle (``enable_offset_fetch=False``) ROWNUM wrapper: ROWNUM itself has no
+             SQLite counterpart, but the two bound expressions ``ROWNUM <= X`` / ``ora_rn > Y``
+             are cut out of the literal_binds text, evaluated by SQLite, required to be
+             limit+offset / offset, and ``full[:X][Y:]`` must be the slice.  Texts that are not
+             exactly one such wrapper (nested, compound) are counted, not judged.
+
 Guards: MSSQL documents CompileErrors for OFFSET without ORDER BY and for
 PERCENT / WITH TIES with OFFSET - not generated.  MySQL's ``LIMIT o, 18446744073709551615``
 (documented "no limit" idiom) exceeds SQLite's integer range and is rewritten to -1.
-Oracle's pre-12c ROWNUM wrapper has no SQLite counterpart and is out of reach.
+Oracle's pre-12c ROWNUM wrapper is judged on its bound expressions only (see rownum).
 """
 from __future__ import annotations
 
@@ -40,7 +51,7 @@ META = {
     "level": "exploration",
     "technique": "differential execution on SQLite: slice of the unlimited ordered result vs native LIMIT/OFFSET, vs the captured MSSQL ROW_NUMBER structure, vs translated dialect text forms",
     "level_text": "Seeded ordered queries (plain, join, DISTINCT, GROUP BY, expression/label ORDER BY, nested limited subquery, UNION ALL) x limit/offset in {None,0,1,2,n-1,n,n+3} given as int, bound parameter or SQL expression (and fetch()), over seeded data with NULLs and ties; native SQLite execution, the MSSQL ROW_NUMBER structure captured from the live compiler and executed, and MSSQL TOP / OFFSET-FETCH, Oracle 12c, PostgreSQL and MySQL text forms executed after a clause-level translation.",
-    "level_note": "Only SQLite executes. The MSSQL emulation is judged on the translated Select structure and on its rendered text run by SQLite, not on SQL Server; text forms are judged only where the row-limiting clause has an exact SQLite counterpart, otherwise counted inconclusive. FETCH WITH TIES / PERCENT and Oracle ROWNUM (pre-12c) cannot be executed here.",
+    "level_note": "Only SQLite executes. The MSSQL emulation is judged on the translated Select structure and on its rendered text run by SQLite, not on SQL Server; text forms are judged only where the row-limiting clause has an exact SQLite counterpart, otherwise counted inconclusive. FETCH WITH TIES / PERCENT cannot be executed here; the Oracle pre-12c ROWNUM wrapper is judged through its two bound expressions evaluated by SQLite, not by executing ROWNUM.",
     "design_ref": "DESIGN.md section 4, C18",
     "rule": "case = (query shape, data set, limit spec, offset spec, form); non-trivial = the unlimited result has >=3 rows and the slice is a proper, non-empty part of it; distinct by shape+data+specs+form",
     "shards": {"quick": 8, "thorough": 16},
@@ -51,6 +62,8 @@ META = {
         "native_slices_checked", "native_proper_slices", "mssql_structures_captured", "mssql_structures_executed",
         "text_forms_executed", "text_mssql_top", "text_mssql_rownumber", "text_offset_fetch", "text_mysql", "text_postgresql",
         "nested_limited_subqueries", "bind_or_expr_limits",
+        "chained_slice_cases", "chains_slice_from_zero_after_offset", "orm_query_chains",
+        "oracle_rownum_judged", "oracle_rownum_limit_and_offset",
     ],
     "assumptions": [
         "SQLite's LIMIT/OFFSET and ROW_NUMBER() OVER (ORDER BY ...) are the reference semantics",
@@ -231,6 +244,16 @@ def run(ctx):
     d_ora._supports_offset_fetch = True
     d_pg = postgresql.dialect()
     d_my = mysql.dialect()
+    d_ora_old = oracle.dialect(enable_offset_fetch=False)   # pre-12c: ROWNUM wrapper
+    if d_ora_old._supports_offset_fetch:
+        raise RuntimeError("legacy oracle dialect not in ROWNUM mode")
+    from sqlalchemy import orm
+
+    class A:
+        pass
+
+    reg = orm.registry()
+    reg.map_imperatively(A, md.tables["a"])
 
     try:
         conn = eng.connect()
@@ -241,6 +264,8 @@ def run(ctx):
         STRUCT_CONN[0] = conn_s
         if conn_s.connection.dbapi_connection is not raw:
             raise RuntimeError("structure connection does not share the in-memory database")
+        DIALECTS = dict(ms_old=d_ms_old, ms_new=d_ms_new, ora=d_ora, pg=d_pg, my=d_my, ora_old=d_ora_old)
+        session = orm.Session(bind=conn)
         ndatasets = ctx.pick({"quick": 3, "thorough": 40})
         combos_per_shape = ctx.pick({"quick": 14, "thorough": 40})
         for ds in range(ndatasets):
@@ -261,16 +286,23 @@ def run(ctx):
                     lk = rng.choice(["int", "int", "bind", "expr", "fetch"])
                     ok_ = rng.choice(["int", "int", "bind", "expr"])
                     one_case(ctx, sa, conn, raw, base, full, shape, ds, (lk, lv), (ok_, ov), rng,
-                             dict(ms_old=d_ms_old, ms_new=d_ms_new, ora=d_ora, pg=d_pg, my=d_my),
+                             DIALECTS,
                              captured, NoInnerLimitCompiler, sqlite3)
             # nested limited subquery (inner limited natively / translated, outer limited again)
             for _ in range(ctx.pick({"quick": 10, "thorough": 40})):
-                nested_case(ctx, sa, conn, raw, md, rng, dict(ms_old=d_ms_old, ms_new=d_ms_new, ora=d_ora, pg=d_pg, my=d_my),
+                nested_case(ctx, sa, conn, raw, md, rng, DIALECTS,
                             captured, NoInnerLimitCompiler, sqlite3, ds)
+            # chained limit()/offset()/slice()/Query[...] compositions
+            for _ in range(ctx.pick({"quick": 40, "thorough": 200})):
+                if not ctx.budget_ok():
+                    break
+                chain_case(ctx, sa, conn, raw, md, rng, DIALECTS, captured, NoInnerLimitCompiler, sqlite3, ds, session, A)
+        session.close()
         conn_s.close()
         conn.close()
     finally:
         mssql_base.MSSQLCompiler.translate_select_structure = orig_translate
+        reg.dispose()
         eng.dispose()
 
 
@@ -294,7 +326,8 @@ def run_structure(ctx, sa, conn, stmt, compiler_cls):
         d.statement_compiler = saved
 
 
-def judge_forms(ctx, sa, conn, raw, stmt_for, expected, desc, dialects, captured, compiler_cls, sqlite3, nontrivial, exact_order=True):
+def judge_forms(ctx, sa, conn, raw, stmt_for, expected, desc, dialects, captured, compiler_cls, sqlite3, nontrivial, exact_order=True,
+                native_mech="native-limit-offset-wrong-slice", bounds=None, full=None):
     """stmt_for(allow_fetch) -> limited statement.  Runs native, structure and text forms."""
     from sqlalchemy import exc as sa_exc
 
@@ -305,7 +338,7 @@ def judge_forms(ctx, sa, conn, raw, stmt_for, expected, desc, dialects, captured
     if nontrivial:
         ctx.count("native_proper_slices")
     if got != expected:
-        ctx.violation("native-limit-offset-wrong-slice", f"{desc}: SQLite returned {got!r}, slice is {expected!r}",
+        ctx.violation(native_mech, f"{desc}: SQLite returned {got!r}, slice is {expected!r}",
                       dict(desc, sql=str(stmt.compile(conn)), got=got, expected=expected))
     ctx.case(dict(desc, form="native"), nontrivial=nontrivial)
 
@@ -334,6 +367,9 @@ def judge_forms(ctx, sa, conn, raw, stmt_for, expected, desc, dialects, captured
                                   f"{desc}: translated structure returned {msort(got)!r}, slice is {msort(expected)!r}",
                                   dict(desc, mssql_sql=text_old, got=got, expected=expected))
                 ctx.case(dict(desc, form="mssql-structure"), nontrivial=nontrivial)
+    # ---- legacy Oracle ROWNUM wrapper: bounds extracted from the text and evaluated by SQLite
+    if bounds is not None and full is not None and "ora_old" in dialects:
+        oracle_rownum(ctx, raw, stmt, full, expected, desc, dialects["ora_old"], bounds, nontrivial, sqlite3)
     # ---- text forms
     forms = [("mssql-old", "mssql", text_old)]
     for key, fam in (("ms_new", "mssql"), ("ora", "oracle"), ("pg", "postgresql"), ("my", "mysql")):
@@ -372,7 +408,7 @@ def judge_forms(ctx, sa, conn, raw, stmt_for, expected, desc, dialects, captured
             mech = f"text-form-wrong-slice:{kind}"
             if kind == "mssql-rownumber" and desc["shape"] == "distinct":
                 mech = "mssql-rownumber-wrapper-breaks-distinct"
-            elif fam == "mssql" and desc["shape"] == "union" and not re.search(r"\bTOP\b|\bOFFSET\b|\bFETCH\b|ROW_NUMBER", text):
+            elif fam == "mssql" and desc["shape"] in ("union", "chain-union") and not re.search(r"\bTOP\b|\bOFFSET\b|\bFETCH\b|ROW_NUMBER", text):
                 mech = "mssql-compound-select-row-limit-not-rendered"
             ctx.violation(mech, f"{desc}: {kind} text returned {got!r}, slice is {expected!r}",
                           dict(desc, dialect_sql=text, sqlite_sql=tr, got=got, expected=expected))
@@ -385,6 +421,198 @@ def compile_mech(fam, desc, e):
             and "simple integer value for offset" in str(e):
         return "mssql-subquery-non-integer-offset-compile-error"
     return f"compile-raised:{fam}"
+
+
+def _until_close(text, start):
+    """expression starting at ``start`` up to the parenthesis that closes the enclosing
+    subquery (or the end of the text)."""
+    depth = 0
+    for i in range(start, len(text)):
+        ch = text[i]
+        if ch == "(":
+            depth += 1
+        elif ch == ")":
+            if depth == 0:
+                return text[start:i]
+            depth -= 1
+    return text[start:]
+
+
+def oracle_rownum(ctx, raw, stmt, full, expected, desc, dialect, bounds, nontrivial, sqlite3):
+    """Partial oracle for the pre-12c ROWNUM emulation (no SQLite counterpart for ROWNUM
+    itself): ``... WHERE ROWNUM <= X) WHERE ora_rn > Y`` keeps rows ``full[:X][Y:]`` of the
+    ordered inner query.  X and Y are cut out of the literal_binds text and *evaluated by
+    SQLite*; they must be limit+offset / offset and the rows they select must be the slice.
+    Anything that is not exactly one such wrapper is counted, not judged."""
+    from sqlalchemy import exc as sa_exc
+
+    lim, off = bounds
+    try:
+        text = " ".join(str(stmt.compile(dialect=dialect, compile_kwargs={"literal_binds": True})).split())
+    except sa_exc.CompileError as e:
+        ctx.violation("compile-raised:oracle", f"{desc}: {e}", desc)
+        return
+    n_le, n_rn = text.count("ROWNUM <= "), text.count("ora_rn > ")
+    if n_le > 1 or n_rn > 1 or n_le + n_rn == 0 or text.count("ROWNUM AS ora_rn") != n_rn:
+        ctx.count("oracle_rownum_untranslatable")
+        return
+    try:
+        X = Y = None
+        if n_le:
+            X = raw.execute("SELECT " + _until_close(text, text.index("ROWNUM <= ") + len("ROWNUM <= "))).fetchone()[0]
+        if n_rn:
+            Y = raw.execute("SELECT " + _until_close(text, text.index("ora_rn > ") + len("ora_rn > "))).fetchone()[0]
+    except sqlite3.Error:
+        ctx.count("oracle_rownum_untranslatable")
+        return
+    ctx.count("oracle_rownum_judged")
+    if lim is not None and off is not None:
+        ctx.count("oracle_rownum_limit_and_offset")
+    want_x = None if lim is None else lim + (off or 0)
+    rows = list(full)
+    if X is not None:
+        rows = rows[:max(X, 0)]
+    if Y is not None:
+        rows = rows[max(Y, 0):]
+    if X != want_x or (Y or 0) != (off or 0) or rows != expected:   # an explicit OFFSET 0 may or may not be rendered
+        ctx.violation("oracle-rownum-wrapper-wrong-bounds",
+                      f"{desc}: ROWNUM <= {X!r} / ora_rn > {Y!r} (wanted {want_x!r} / {off!r}) selects {rows!r}, slice is {expected!r}",
+                      dict(desc, oracle_sql=text, expected=expected))
+    ctx.case(dict(desc, form="oracle-rownum"), nontrivial=nontrivial)
+
+
+# --------------------------------------------------------------------------
+# chained limit() / offset() / slice() / Query.__getitem__
+# --------------------------------------------------------------------------
+def gen_chain(rng, n, orm):
+    """A sequence of 2-4 operations and the window they denote.
+
+    Semantics used as reference: ``offset(k)`` / ``limit(k)`` set that bound; ``slice(a, b)``
+    (and ``[a:b]``) select ``current_rows[a:b]`` - the Python slice of what the statement
+    returned before.  The documentation leaves open what a slice that reaches *beyond* an
+    existing LIMIT does, so such chains are not generated: b <= current limit, and an
+    open-ended ``[a:]`` only while no LIMIT is set."""
+    off, lim = 0, None
+    ops = []
+    for _ in range(rng.randint(2, 4)):
+        kinds = ["offset", "limit", "slice", "slice", "slice"]
+        if orm:
+            kinds += ["getslice", "getslice", "gethead"] + (["gettail"] if lim is None else [])
+        k = rng.choice(kinds)
+        room = lim if lim is not None else max(n - off, 0) + 2
+        if k == "offset":
+            v = rng.choice([0, 1, 2, 3, n // 2])
+            ops.append(("offset", v, rng.choice(["int", "int", "bind", "expr"])))
+            off = v
+        elif k == "limit":
+            v = rng.choice([1, 2, 3, 5, n, n + 2])
+            ops.append(("limit", v, rng.choice(["int", "int", "bind", "expr"])))
+            lim = v
+        elif k in ("slice", "getslice"):
+            b = rng.randint(0, room)
+            a = rng.choice([0, 0, 0, rng.randint(0, b)])
+            ops.append((k, a, b))
+            off, lim = off + a, b - a
+        elif k == "gethead":
+            b = rng.randint(0, room)
+            ops.append(("gethead", b, None))
+            lim = b
+        elif k == "gettail":
+            a = rng.randint(0, 3)
+            ops.append(("gettail", a, None))
+            off = off + a
+    return ops, off, lim
+
+
+def chain_case(ctx, sa, conn, raw, md, rng, dialects, captured, compiler_cls, sqlite3, ds, session, A):
+    from sqlalchemy import Integer, bindparam, literal
+
+    a = md.tables["a"]
+    orm = session is not None and rng.random() < 0.4
+    compound = not orm and rng.random() < 0.25
+    if orm:
+        base = session.query(A.id, A.v).order_by(A.v, A.id)
+        full = [tuple(r) for r in base.all()]
+    elif compound:
+        base = sa.union_all(sa.select(a.c.id, a.c.v).where(a.c.v < 2),
+                            sa.select(a.c.id, a.c.v).where(sa.or_(a.c.v >= 2, a.c.v.is_(None)))).order_by("v", "id")
+        full = rows_of(conn.execute(base))
+    else:
+        base = sa.select(a.c.id, a.c.v).order_by(a.c.v, a.c.id)
+        full = rows_of(conn.execute(base))
+    n = len(full)
+    ops, off, lim = gen_chain(rng, n, orm)
+    # reference: the same operations on the Python list of the fully ordered result
+    cur_off, cur_lim, rows = 0, None, list(full)
+    for op in ops:
+        if op[0] == "offset":
+            cur_off = op[1]
+            rows = expected_slice(full, cur_lim, cur_off)
+        elif op[0] == "limit":
+            cur_lim = op[1]
+            rows = expected_slice(full, cur_lim, cur_off)
+        elif op[0] in ("slice", "getslice"):
+            rows = rows[op[1]:op[2]]
+            cur_off, cur_lim = cur_off + op[1], op[2] - op[1]
+        elif op[0] == "gethead":
+            rows = rows[:op[1]]
+            cur_lim = op[1]
+        elif op[0] == "gettail":
+            rows = rows[op[1]:]
+            cur_off += op[1]
+    if rows != expected_slice(full, cur_lim, cur_off):
+        raise RuntimeError(f"chain generator left the guarded class: {ops}")
+    expected = rows
+
+    def val(kind, v, nm):
+        if kind == "bind":
+            return bindparam(nm, value=v, type_=Integer)
+        if kind == "expr":
+            k = v // 2
+            return literal(k) + literal(v - k)
+        return v
+
+    def build():
+        st = base
+        for i, op in enumerate(ops):
+            if op[0] == "offset":
+                st = st.offset(val(op[2], op[1], f"o{i}"))
+            elif op[0] == "limit":
+                st = st.limit(val(op[2], op[1], f"l{i}"))
+            elif op[0] == "slice":
+                st = st.slice(op[1], op[2])
+            elif op[0] == "getslice":
+                if i == len(ops) - 1:
+                    return [tuple(r) for r in st[op[1]:op[2]]]
+                st = st.slice(op[1], op[2])
+            elif op[0] == "gethead":
+                if i == len(ops) - 1:
+                    return [tuple(r) for r in st[:op[1]]]
+                st = st.slice(0, op[1])
+            elif op[0] == "gettail":
+                if i == len(ops) - 1:
+                    return [tuple(r) for r in st[op[1]:]]
+                st = st.slice(op[1], None)
+        return st
+
+    desc = {"shape": "chain-orm" if orm else ("chain-union" if compound else "chain"), "dataset": [ctx.seed, ctx.shard, ds],
+            "ops": [list(x) for x in ops], "full_rows": n}
+    nontrivial = n >= 3 and 0 < len(expected) < n
+    ctx.count("chained_slice_cases")
+    if any(op[0] in ("slice", "getslice") and op[1] == 0 for op in ops[1:]) and any(op[0] in ("offset", "slice", "getslice", "gettail") and op[1] > 0 for op in ops[:-1]):
+        ctx.count("chains_slice_from_zero_after_offset")
+    if orm:
+        ctx.count("orm_query_chains")
+        res = build()
+        got = res if isinstance(res, list) else [tuple(r) for r in res.all()]
+        if got != expected:
+            ctx.violation("chained-slice-limit-offset-wrong-rows", f"{desc}: Query returned {got!r}, composition of slices is {expected!r}",
+                          dict(desc, got=got, expected=expected))
+        ctx.case(dict(desc, form="orm"), nontrivial=nontrivial)
+        return
+    judge_forms(ctx, sa, conn, raw, lambda allow_fetch: build(), expected, desc, dialects, captured, compiler_cls, sqlite3, nontrivial,
+                native_mech="chained-slice-limit-offset-wrong-rows",
+                bounds=None if compound else (cur_lim, cur_off if cur_off else None), full=full)
 
 
 def one_case(ctx, sa, conn, raw, base, full, shape, ds, lim, off, rng, dialects, captured, compiler_cls, sqlite3):
@@ -401,7 +629,8 @@ def one_case(ctx, sa, conn, raw, base, full, shape, ds, lim, off, rng, dialects,
         rng.setstate(state)  # same expression split in both variants
         return apply_limit(sa, base, lim, off, rng, allow_fetch)
 
-    judge_forms(ctx, sa, conn, raw, stmt_for, expected, desc, dialects, captured, compiler_cls, sqlite3, nontrivial)
+    judge_forms(ctx, sa, conn, raw, stmt_for, expected, desc, dialects, captured, compiler_cls, sqlite3, nontrivial,
+                bounds=None if shape == "union" else (lv, ov), full=full)
     if ctx.evaluations < 40 and nontrivial and len(ctx.samples) < 4:
         ctx.sample(dict(desc, expected=expected))
 
